@@ -1,6 +1,7 @@
 """C17 — CsrMatrixBuilder / ImmutableCsrMatrix behave like the dense matrix (src/hpotk/graph/csr/_csr.py)."""
 import itertools
 
+import common
 from common import run_driver
 
 RULE = ('assignment histories on a CsrMatrixBuilder (exhaustive: every sequence of length <= 3 over all cells x values {1,-1,2} '
@@ -54,9 +55,15 @@ def impl_read(m, rd):
         if rd[0] == 'cell':
             return {'ok': canon(m[rd[1], rd[2]])}
         if rd[0] == 'row':
-            return {'ok': canon(m[rd[1]])}
+            got = m[rd[1]]
+            out = {'ok': canon(got)}
+            common.scribble(got)         # the caller overwrites the row it was handed; later reads must not show it
+            return out
         if rd[0] == 'cols':
-            return {'ok': sorted(canon(m.col_indices_of_val(rd[1], rd[2])))}
+            got = m.col_indices_of_val(rd[1], rd[2])
+            out = {'ok': sorted(canon(got))}
+            common.scribble(got)
+            return out
     except Exception as e:  # noqa
         return {'err': type(e).__name__}
 
@@ -276,7 +283,9 @@ def random_wf_csr(rng, dtype):
     R, C = rng.randrange(0, 5), rng.randrange(0, 6)
     indptr, col, dat = [0], [], []
     for _ in range(R):
-        cols = sorted(rng.sample(range(C), rng.randrange(0, C + 1))) if C else []
+        cols = rng.sample(range(C), rng.randrange(0, C + 1)) if C else []
+        if rng.random() < 0.6:
+            cols.sort()         # canonical rows, and rows that list their columns in another order (legal CSR; theorem csr_reads_any_column_order)
         for c in cols:
             col.append(c)
             dat.append(1 if dtype == 'bool' else rng.choice([1, -1, 2, 3, 7, 200000, 200001, -200001]))
